@@ -112,6 +112,13 @@ func tierDelay(c *harness.Ctx) int {
 	return 1
 }
 
+func tierHorizon(c *harness.Ctx) int {
+	if c.Thorough() {
+		return 150
+	}
+	return 60
+}
+
 func capExecs(c *harness.Ctx) int64 {
 	if c.Thorough() {
 		return 400000
